@@ -21,6 +21,9 @@ TIE_A = ["code:fuzzylite.rule.Rule.parse", "code:fuzzylite.rule.Consequent.load"
          "code:fuzzylite.rule.Consequent.unload", "code:fuzzylite.rule.Consequent.is_loaded",
          "code:fuzzylite.rule.RuleBlock.load_rules", "code:fuzzylite.rule.RuleBlock.unload_rules",
          "code:fuzzylite.rule.RuleBlock.reload_rules"]
+TIE_A += [
+    f"code:fuzzylite.importer.FllImporter.{m}" for m in ("extract_key_value", "boolean", "range", "tnorm", "snorm",
+                                                         "input_variable", "output_variable", "rule_block")]
 RULE = ("valid rules (antecedents to depth 3 with hedges / any / parentheses, 1-3 conclusions with hedges, optional weight) "
         "over generated engines, mutated by token deletion, duplication, substitution (keywords, valid and unknown names, "
         "numbers, parentheses), truncation at every token boundary, reordering, plus one-error injections of every listed "
